@@ -1112,3 +1112,1689 @@ def bounded_rank_models_replay(rp):
         if c == clause:
             return (False, d)
     return (True, 'ok')
+
+
+# ================================================================================================
+# (2) post-processing statistics of the resampling / diagnostic tools
+# ================================================================================================
+
+FID_BOOT = 'src/pharmpy/tools/bootstrap/results.py:calculate_results'
+FID_COOK = 'src/pharmpy/tools/cdd/results.py:compute_cook_scores'
+FID_JACK = 'src/pharmpy/tools/cdd/results.py:compute_jackknife_covariance_matrix'
+FID_CRAT = 'src/pharmpy/tools/cdd/results.py:compute_covariance_ratios'
+FID_CDD = 'src/pharmpy/tools/cdd/results.py:calculate_results'
+FID_ESH = 'src/pharmpy/modeling/results.py:calculate_eta_shrinkage'
+FID_ISH = 'src/pharmpy/modeling/results.py:calculate_individual_shrinkage'
+FID_DELTA = 'src/pharmpy/internals/math.py:se_delta_method'
+
+GRID = [-1.0, 0.5, 2.0]
+PNAMES = ['A', 'B', 'C']
+
+
+def _rot(names, k):
+    k = k % len(names)
+    return names[k:] + names[:k]
+
+
+# ---- numpy-free reference statistics (plain python, per column) --------------------------------
+
+def _r_mean(xs):
+    return sum(xs) / len(xs)
+
+
+def _r_median(xs):
+    s = sorted(xs)
+    n = len(s)
+    return s[n // 2] if n % 2 else (s[n // 2 - 1] + s[n // 2]) / 2
+
+
+def _r_var(xs):
+    if len(xs) < 2:
+        return NAN
+    m = _r_mean(xs)
+    return sum((x - m) ** 2 for x in xs) / (len(xs) - 1)
+
+
+def _r_sd(xs):
+    v = _r_var(xs)
+    return NAN if math.isnan(v) else math.sqrt(v)
+
+
+def _r_cov(xs, ys):
+    if len(xs) < 2:
+        return NAN
+    mx, my = _r_mean(xs), _r_mean(ys)
+    return sum((x - mx) * (y - my) for x, y in zip(xs, ys)) / (len(xs) - 1)
+
+
+def _r_quantile(xs, q):
+    """linear interpolation between the order statistics at position (n-1)*q"""
+    s = sorted(xs)
+    h = (len(s) - 1) * q
+    lo = int(math.floor(h))
+    hi = min(lo + 1, len(s) - 1)
+    return s[lo] + (s[hi] - s[lo]) * (h - lo)
+
+
+def _r_div(a, b):
+    if _isnan(a) or _isnan(b):
+        return NAN
+    if b == 0:
+        return NAN if a == 0 else math.copysign(math.inf, a)
+    return a / b
+
+
+DIST_LABELS = [('min', 0.0), ('0.05%', 0.0005), ('0.5%', 0.005), ('2.5%', 0.025), ('5%', 0.05), ('median', 0.5),
+               ('95%', 0.95), ('97.5%', 0.975), ('99.5%', 0.995), ('99.95%', 0.9995), ('max', 1.0)]
+
+C_B_EXC = 'bootstrap calculate_results raises no exception on complete replicate results'
+C_B_STAT = 'parameter_statistics: mean, median, stderr (sample sd) and RSE = stderr/mean of each parameter over the replicates, matched by parameter NAME'
+C_B_BIAS = 'parameter_statistics: bias = mean over the replicates - original estimate of the parameter with the same NAME'
+C_B_DIST = 'parameter_distribution: min, max, median and the listed percentiles (linear interpolation between data points) per parameter'
+C_B_COV = 'covariance_matrix is the sample covariance of the replicate estimates, labelled by parameter'
+C_B_RAW = 'parameter_estimates is the table of replicate estimates (row = replicate, column = parameter NAME)'
+C_B_OFVS = 'ofvs: original_bootdata_ofv = sum of original iOFVs over the included individuals (with multiplicity), delta_bootdata = original_bootdata_ofv - bootstrap_bootdata_ofv, delta_origdata = bootstrap_origdata_ofv - original OFV'
+C_B_OFVSTAT = 'ofv_statistics and ofv_distribution: mean, median, sd and percentiles of each ofvs column (missing values skipped)'
+C_B_FRAME = 'bootstrap calculate_results does not mutate the replicate or original results'
+
+BOOT_OFV = [5.0, 6.5, 2.0, 9.25]
+BOOT_INCL = [[1, 1, 2], [3, 3, 3], [1, 2, 3], [2, 3, 3]]
+BOOT_DOFV = [11.0, None, 12.0, 9.5]
+BOOT_ORIG = {'A': 1.0, 'B': 2.0, 'C': 3.5}
+BOOT_IOFV = {1: 1.0, 2: 2.0, 3: 7.0}
+
+
+def _boot_check(inp):
+    import pandas as pd
+    from pharmpy.tools.bootstrap.results import calculate_results
+    from pharmpy.workflows.results import ModelfitResults
+
+    rows = inp['rows']
+    p, r = len(rows[0]), len(rows)
+    names = PNAMES[:p]
+    reps = []
+    for k, row in enumerate(rows):
+        order = _rot(names, k)          # same labels, different order from replicate to replicate
+        vals = dict(zip(names, row))
+        reps.append(ModelfitResults(ofv=BOOT_OFV[k], parameter_estimates=pd.Series({n: vals[n] for n in order})))
+    orig = None
+    if inp['orig']:
+        orig = ModelfitResults(ofv=10.0, parameter_estimates=pd.Series({n: BOOT_ORIG[n] for n in names[::-1]}),
+                               individual_ofv=pd.Series(BOOT_IOFV).rename_axis('ID'))
+    incl = [list(x) for x in BOOT_INCL[:r]]
+    dofv = [None if v is None else ModelfitResults(ofv=v) for v in BOOT_DOFV[:r]]
+    snap = [s.parameter_estimates.to_dict() for s in reps]
+    snap_order = [list(s.parameter_estimates.index) for s in reps]
+    tag = f'replicates (rows, columns {names}) {rows}'
+    try:
+        res = calculate_results(None, reps, original_results=orig, included_individuals=incl, dofv_results=dofv)
+    except Exception as e:
+        return [(FID_BOOT, C_B_EXC, f'{tag}: raised {type(e).__name__}: {e}')]
+    fails = []
+
+    def add(clause, detail):
+        if all(c != clause for _, c, _ in fails):
+            fails.append((FID_BOOT, clause, f'{tag}: {detail}'))
+
+    cols = {n: [row[i] for row in rows] for i, n in enumerate(names)}
+    ps, pdist, cov, raw = res.parameter_statistics, res.parameter_distribution, res.covariance_matrix, res.parameter_estimates
+    try:
+        if sorted(ps.index) != sorted(names):
+            add(C_B_STAT, f'index {list(ps.index)}')
+        for n in names:
+            xs = cols[n]
+            want = {'mean': _r_mean(xs), 'median': _r_median(xs), 'stderr': _r_sd(xs)}
+            want['RSE'] = _r_div(want['stderr'], want['mean'])
+            for c, w in want.items():
+                g = ps.loc[n, c]
+                if not _close(g, w):
+                    add(C_B_STAT, f'{c} of {n}: got {g}, formula {w}')
+            wb = want['mean'] - BOOT_ORIG[n] if inp['orig'] else NAN
+            if not _close(ps.loc[n, 'bias'], wb):
+                add(C_B_BIAS, f"bias of {n}: got {ps.loc[n, 'bias']}, formula {wb}")
+            for lab, q in DIST_LABELS:
+                w = _r_quantile(xs, q)
+                g = pdist.loc[n, lab]
+                if not _close(g, w):
+                    add(C_B_DIST, f'{lab} of {n}: got {g}, formula {w}')
+            for n2 in names:
+                w = _r_cov(xs, cols[n2])
+                g = cov.loc[n, n2]
+                if not _close(g, w):
+                    add(C_B_COV, f'cov({n},{n2}): got {g}, formula {w}')
+            for k in range(r):
+                if not _close(raw[n].iloc[k], rows[k][names.index(n)]):
+                    add(C_B_RAW, f'replicate {k} parameter {n}: got {raw[n].iloc[k]}, given {rows[k][names.index(n)]}')
+    except Exception as e:
+        add(C_B_STAT, f'result tables not indexed by parameter name: {type(e).__name__}: {e}')
+    # ofvs
+    try:
+        ofvs = res.ofvs
+        wantcols = {
+            'bootstrap_bootdata_ofv': BOOT_OFV[:r],
+            'original_bootdata_ofv': [sum(BOOT_IOFV[i] for i in incl[k]) if inp['orig'] else NAN for k in range(r)],
+            'bootstrap_origdata_ofv': [NAN if v is None else v for v in BOOT_DOFV[:r]],
+        }
+        wantcols['delta_bootdata'] = [a - b for a, b in zip(wantcols['original_bootdata_ofv'],
+                                                            wantcols['bootstrap_bootdata_ofv'])]
+        wantcols['delta_origdata'] = [(a - 10.0) if inp['orig'] else NAN for a in wantcols['bootstrap_origdata_ofv']]
+        if inp['orig']:
+            wantcols['original_origdata_ofv'] = [10.0] * r
+        for c, ws in wantcols.items():
+            gs = [float(x) for x in ofvs[c].tolist()]
+            if len(gs) != r or not all(_close(g, w) for g, w in zip(gs, ws)):
+                add(C_B_OFVS, f'{c}: got {gs}, definition {ws}')
+        ost, odist = res.ofv_statistics, res.ofv_distribution
+        for c, ws in wantcols.items():
+            xs = [w for w in ws if not math.isnan(w)]
+            if not xs:
+                want = {'mean': NAN, 'median': NAN, 'stderr': NAN}
+            else:
+                want = {'mean': _r_mean(xs), 'median': _r_median(xs), 'stderr': _r_sd(xs)}
+            for k2, w in want.items():
+                if not _close(ost.loc[c, k2], w):
+                    add(C_B_OFVSTAT, f'ofv_statistics {k2} of {c}: got {ost.loc[c, k2]}, formula {w}')
+            for lab, q in DIST_LABELS:
+                w = _r_quantile(xs, q) if xs else NAN
+                if not _close(odist.loc[c, lab], w):
+                    add(C_B_OFVSTAT, f'ofv_distribution {lab} of {c}: got {odist.loc[c, lab]}, formula {w}')
+    except Exception as e:
+        add(C_B_OFVS, f'ofv tables: {type(e).__name__}: {e}')
+    after = [s.parameter_estimates.to_dict() for s in reps]
+    if after != snap or [list(s.parameter_estimates.index) for s in reps] != snap_order or incl != BOOT_INCL[:r]:
+        add(C_B_FRAME, 'an input changed')
+    return fails
+
+
+def _tables(p, rmin, rmax):
+    """all multisets of rmin..rmax row vectors over GRID^p (rows in alternating order to avoid sorted input only)"""
+    vecs = list(itertools.product(GRID, repeat=p))
+    out = []
+    for r in range(rmin, rmax + 1):
+        for i, ms in enumerate(itertools.combinations_with_replacement(vecs, r)):
+            rows = [list(v) for v in ms]
+            if i % 2:
+                rows.reverse()
+            out.append(rows)
+    return out
+
+
+def _boot_inputs(tier):
+    thorough = tier == 'thorough'
+    dom = []
+    for p, rmax in ((1, 4), (2, 4), (3, 4 if thorough else 2)):
+        for rows in _tables(p, 1, rmax):
+            dom.append(dict(rows=rows, orig=True))
+    for rows in _tables(2, 1, 2):
+        dom.append(dict(rows=rows, orig=False))
+    return dom
+
+
+# ---- cdd --------------------------------------------------------------------------------------
+
+COVS = {
+    1: [[0.25]],
+    2: [[1.0, 0.3], [0.3, 2.0]],
+    3: [[2.0, 0.5, 0.0], [0.5, 1.0, 0.2], [0.0, 0.2, 4.0]],
+}
+COVS_ALT = {
+    1: [[4.0]],
+    2: [[0.5, -0.1], [-0.1, 0.25]],
+    3: [[1.0, 0.0, 0.3], [0.0, 3.0, 0.0], [0.3, 0.0, 0.5]],
+}
+CDD_BASE = {'A': 0.5, 'B': 1.0, 'C': -0.25}
+C_K_FORM = 'Cook score_i = sqrt((P_i - P_orig)^T cov(P_orig)^-1 (P_i - P_orig)) (all labels in the same order)'
+C_K_NAME = 'Cook score matches estimates and covariance by parameter NAME when base estimates, case estimates and covariance matrix list the same labels in different orders'
+C_J_FORM = 'jackknife covariance_{j,k} = (N-1)/N * sum_i (p_ij - mean_j)(p_ik - mean_k), labelled by parameter'
+C_CR_FORM = 'covariance ratio_i = sqrt(det(cov(P_i)) / det(cov(P_orig))), NaN for a case without results or covariance matrix'
+C_CDD_EXC = 'cdd calculate_results raises no exception when the base model has results'
+C_CDD_COOK = 'case_results.cook_score follows the Cook score formula (by parameter NAME), NaN for a case without results'
+C_CDD_JACK = 'case_results.jackknife_cook_score is the Cook score under the jackknife covariance matrix'
+C_CDD_DOFV = 'case_results.delta_ofv = OFV_all - sum of iOFV of the skipped individuals - OFV_k'
+C_CDD_CRAT = 'case_results.covariance_ratio follows the covariance ratio formula'
+C_CDD_IDX = 'case_results has one row per case numbered from 1 and lists the skipped individuals'
+
+
+def _mat_inv_quad(cov, d):
+    """d^T cov^-1 d by Gaussian elimination (plain python)"""
+    n = len(d)
+    a = [list(map(float, cov[i])) + [float(d[i])] for i in range(n)]
+    for c in range(n):
+        piv = max(range(c, n), key=lambda r: abs(a[r][c]))
+        a[c], a[piv] = a[piv], a[c]
+        for r in range(c + 1, n):
+            f = a[r][c] / a[c][c]
+            for k in range(c, n + 1):
+                a[r][k] -= f * a[c][k]
+    x = [0.0] * n
+    for r in range(n - 1, -1, -1):
+        x[r] = (a[r][n] - sum(a[r][k] * x[k] for k in range(r + 1, n))) / a[r][r]
+    return sum(di * xi for di, xi in zip(d, x))
+
+
+def _det(m):
+    n = len(m)
+    a = [list(map(float, row)) for row in m]
+    det = 1.0
+    for c in range(n):
+        piv = max(range(c, n), key=lambda r: abs(a[r][c]))
+        if a[piv][c] == 0:
+            return 0.0
+        if piv != c:
+            a[c], a[piv] = a[piv], a[c]
+            det = -det
+        det *= a[c][c]
+        for r in range(c + 1, n):
+            f = a[r][c] / a[c][c]
+            for k in range(c, n):
+                a[r][k] -= f * a[c][k]
+    return det
+
+
+def _ref_cook(names, base, rows, cov):
+    return [math.sqrt(_mat_inv_quad(cov, [row[i] - base[n] for i, n in enumerate(names)])) for row in rows]
+
+
+def _ref_jack(rows):
+    n, p = len(rows), len(rows[0])
+    means = [sum(r[j] for r in rows) / n for j in range(p)]
+    return [[(n - 1) / n * sum((r[j] - means[j]) * (r[k] - means[k]) for r in rows) for k in range(p)]
+            for j in range(p)]
+
+
+def _labelled(mat, names, order):
+    import pandas as pd
+
+    df = pd.DataFrame(mat, index=names, columns=names)
+    return df.loc[order, order]
+
+
+def _cook_check(inp):
+    import pandas as pd
+    from pharmpy.tools.cdd.results import compute_cook_scores, compute_jackknife_covariance_matrix
+
+    rows = inp['rows']
+    p = len(rows[0])
+    names = PNAMES[:p]
+    ob, oc, ov = (_rot(names, 1) if inp['perm'] == w else names for w in ('base', 'cdd', 'cov'))
+    base = pd.Series({n: CDD_BASE[n] for n in ob})
+    cdd = pd.DataFrame(rows, columns=names)[oc]
+    cov = _labelled(COVS[p], names, ov)
+    tag = f"base {base.to_dict()} cases (columns {names}) {rows} cov {COVS[p]} label orders base={ob} cases={oc} cov={ov}"
+    fails = []
+    clause = C_K_FORM if inp['perm'] == 'none' else C_K_NAME
+    want = _ref_cook(names, CDD_BASE, rows, COVS[p])
+    snap = (base.to_dict(), cdd.values.tolist(), cov.values.tolist())
+    try:
+        got = compute_cook_scores(base, cdd, cov)
+        if got is None or len(got) != len(rows) or not all(_close(g, w) for g, w in zip(got, want)):
+            fails.append((FID_COOK, clause, f'{tag}: got {None if got is None else [float(g) for g in got]}, formula {want}'))
+    except Exception as e:
+        fails.append((FID_COOK, clause, f'{tag}: raised {type(e).__name__}: {e}'))
+    if (base.to_dict(), cdd.values.tolist(), cov.values.tolist()) != snap:
+        fails.append((FID_COOK, clause, f'{tag}: an input was mutated'))
+    if inp['perm'] in ('none', 'cdd'):
+        wj = _ref_jack(rows)
+        try:
+            gj = compute_jackknife_covariance_matrix(cdd)
+            ok = sorted(gj.index) == sorted(names) and sorted(gj.columns) == sorted(names)
+            ok = ok and all(_close(gj.loc[a, b], wj[i][j]) for i, a in enumerate(names) for j, b in enumerate(names))
+            if not ok:
+                fails.append((FID_JACK, C_J_FORM, f'case estimates (columns {oc}) {cdd.values.tolist()}: got '
+                                                  f'{gj.to_dict()}, formula {wj} for columns {names}'))
+        except Exception as e:
+            fails.append((FID_JACK, C_J_FORM, f'{tag}: raised {type(e).__name__}: {e}'))
+    return fails
+
+
+def _cook_inputs(tier):
+    thorough = tier == 'thorough'
+    dom = []
+    for p, rmax in ((1, 4), (2, 4), (3, 4 if thorough else 2)):
+        for rows in _tables(p, 1, rmax):
+            for perm in (('none',) if p == 1 else ('none', 'base', 'cdd', 'cov')):
+                dom.append(dict(rows=rows, perm=perm))
+    return dom
+
+
+CRAT_OPTIONS = ['nores', 'nocov', 'half', 'double', 'alt']
+
+
+def _crat_cov(p, opt):
+    if opt == 'half':
+        return [[0.5 * x for x in row] for row in COVS[p]]
+    if opt == 'double':
+        return [[2.0 * x for x in row] for row in COVS[p]]
+    return COVS_ALT[p]
+
+
+def _crat_check(inp):
+    import pandas as pd
+    from pharmpy.tools.cdd.results import compute_covariance_ratios
+    from pharmpy.workflows.results import ModelfitResults
+
+    p = inp['p']
+    names = PNAMES[:p]
+    ress, want = [], []
+    for k, opt in enumerate(inp['cases']):
+        if opt == 'nores':
+            ress.append(None)
+            want.append(NAN)
+        elif opt == 'nocov':
+            ress.append(ModelfitResults(ofv=1.0))
+            want.append(NAN)
+        else:
+            m = _crat_cov(p, opt)
+            ress.append(ModelfitResults(ofv=1.0, covariance_matrix=_labelled(m, names, _rot(names, k))))
+            want.append(math.sqrt(_det(m) / _det(COVS[p])))
+    cov = _labelled(COVS[p], names, names)
+    tag = f"p={p} cases {inp['cases']} (half/double = 0.5x/2x the original covariance {COVS[p]}, alt = {COVS_ALT[p]})"
+    try:
+        got = compute_covariance_ratios(ress, cov)
+        if got is None or len(got) != len(want) or not all(_close(g, w) for g, w in zip(got, want)):
+            return [(FID_CRAT, C_CR_FORM, f'{tag}: got {got}, formula {want}')]
+    except Exception as e:
+        return [(FID_CRAT, C_CR_FORM, f'{tag}: raised {type(e).__name__}: {e}')]
+    return []
+
+
+def _crat_inputs(tier):
+    dom = []
+    for p in (1, 2, 3):
+        for n in range(1, 4):
+            for cases in itertools.product(CRAT_OPTIONS, repeat=n):
+                dom.append(dict(p=p, cases=list(cases)))
+    return dom
+
+
+class _Named:
+    def __init__(self, name):
+        self.name = name
+
+
+CDD_IOFV = {1: 1.0, 2: 2.5, 3: 7.0, 4: 0.5}
+CDD_OFVK = [8.0, 7.25, 2.0, 9.0]
+
+
+def _cdd_check(inp):
+    import pandas as pd
+    from pharmpy.tools.cdd.results import calculate_results
+    from pharmpy.workflows.results import ModelfitResults
+
+    rows = inp['rows']
+    p, n = len(rows[0]), len(rows)
+    names = PNAMES[:p]
+    permuted = inp['perm']
+    ob = _rot(names, 1) if permuted else names
+    base = ModelfitResults(
+        ofv=10.0, parameter_estimates=pd.Series({k: CDD_BASE[k] for k in ob}),
+        covariance_matrix=_labelled(COVS[p], names, names),
+        individual_ofv=pd.Series(CDD_IOFV).rename_axis('ID'))
+    models = [_Named(f'cdd_{k + 1}') for k in range(n)]
+    ress, skipped = [], []
+    covopts = ['half', 'nocov', 'alt', 'double']
+    for k, row in enumerate(rows):
+        order = _rot(names, k) if permuted else names
+        vals = dict(zip(names, row))
+        kw = {}
+        if covopts[k] != 'nocov':
+            kw['covariance_matrix'] = _labelled(_crat_cov(p, covopts[k]), names, order)
+        if k == inp.get('missing'):
+            ress.append(None)
+        else:
+            ress.append(ModelfitResults(ofv=CDD_OFVK[k], parameter_estimates=pd.Series({m: vals[m] for m in order}), **kw))
+        skipped.append([k + 1] if k != 2 else [3, 4])
+    tag = (f"base { {k: CDD_BASE[k] for k in ob} } cases (columns {names}) {rows} missing={inp.get('missing')} "
+           f"label order varies={permuted}")
+    try:
+        res = calculate_results(None, base, models, ress, 'ID', [list(s) for s in skipped])
+    except Exception as e:
+        return [(FID_CDD, C_CDD_EXC, f'{tag}: raised {type(e).__name__}: {e}')]
+    cr = res.case_results
+    fails = []
+
+    def add(clause, detail):
+        if all(c != clause for _, c, _ in fails):
+            fails.append((FID_CDD, clause, f'{tag}: {detail}'))
+
+    if list(cr.index) != list(range(1, n + 1)) or [list(x) for x in cr['skipped_individuals']] != skipped:
+        add(C_CDD_IDX, f"index {list(cr.index)} skipped {cr['skipped_individuals'].tolist()}")
+        return fails
+    present = [k for k in range(n) if ress[k] is not None]
+    cook = _ref_cook(names, CDD_BASE, rows, COVS[p])
+    for k in range(n):
+        w = cook[k] if k in present else NAN
+        g = cr['cook_score'].iloc[k]
+        if not _close(g, w):
+            add(C_CDD_COOK, f'case {k + 1}: got {g}, formula {w}')
+        tot = sum(CDD_IOFV.values()) - sum(CDD_IOFV[i] for i in skipped[k])
+        w = tot - CDD_OFVK[k] if k in present else NAN
+        g = cr['delta_ofv'].iloc[k]
+        if not _close(g, w):
+            add(C_CDD_DOFV, f'case {k + 1}: got {g}, formula {w}')
+        w = NAN
+        if k in present and covopts[k] != 'nocov':
+            w = math.sqrt(_det(_crat_cov(p, covopts[k])) / _det(COVS[p]))
+        g = cr['covariance_ratio'].iloc[k]
+        if not _close(g, w):
+            add(C_CDD_CRAT, f'case {k + 1}: got {g}, formula {w}')
+    if len(present) == n:
+        jk = _ref_jack(rows)
+        d = _det(jk)
+        scale = 1.0
+        for i in range(p):
+            scale *= jk[i][i]
+        if scale > 0 and d > 1e-6 * scale:      # jackknife matrix safely positive definite
+            wj = _ref_cook(names, CDD_BASE, rows, jk)
+            gj = cr['jackknife_cook_score'].tolist()
+            if gj is None or any(g is None for g in gj) or not all(_close(g, w, 1e-7, 1e-9) for g, w in zip(gj, wj)):
+                add(C_CDD_JACK, f'got {gj}, formula {wj}')
+    return fails
+
+
+def _cdd_inputs(tier):
+    thorough = tier == 'thorough'
+    dom = []
+    for p, rmax in ((1, 4), (2, 4 if thorough else 3)):
+        for rows in _tables(p, 1, rmax):
+            for perm in ((False,) if p == 1 else (False, True)):
+                for missing in [None] + list(range(len(rows))):
+                    dom.append(dict(rows=rows, perm=perm, missing=missing))
+    return dom
+
+
+# ---- shrinkage --------------------------------------------------------------------------------
+
+ETA_GRID = [-0.3, 0.1, 0.4]
+OMEGA_GRID = [0.04, 0.09]
+C_E_VAR = 'eta shrinkage = 1 - var(eta)/omega with omega the variance parameter of that eta (individual estimates columns in model order)'
+C_E_SD = 'eta shrinkage (sd=True) = 1 - sd(eta)/sqrt(omega)'
+C_E_NAME = 'eta shrinkage pairs each individual-estimates column with the omega of the eta of the same NAME whatever the order of columns and of the parameter estimates'
+C_E_FIX = 'eta shrinkage uses the model value of a FIXed omega that is absent from the parameter estimates'
+C_I_FORM = 'individual shrinkage = var_i(eta)/omega for each individual and eta (matrix labels in model order)'
+C_I_NAME = 'individual shrinkage pairs var_i(eta) with the omega of the eta of the same NAME whatever the label order of the individual covariance matrices'
+
+
+def _esh_check(inp):
+    import pandas as pd
+    from pharmpy.modeling import calculate_eta_shrinkage
+
+    env = _rank_env()
+    variant = inp['variant']
+    model = env['variants'][variant]
+    etas = ['ETA_CL', 'ETA_VC']
+    omega = {'ETA_CL': inp['om'][0], 'ETA_VC': inp['om'][1]}
+    pe = {'POP_CL': 0.005, 'POP_VC': 1.0, 'COVAPGR': 0.1, 'IIV_CL': omega['ETA_CL'], 'IIV_VC': omega['ETA_VC'],
+          'SIGMA': 0.013}
+    if variant == 'fix':
+        del pe['IIV_CL']
+        omega['ETA_CL'] = model.parameters['IIV_CL'].init
+    pnames = list(pe)
+    if inp['pe_rev']:
+        pnames = pnames[::-1]
+    pes = pd.Series({n: pe[n] for n in pnames})
+    rows = inp['rows']
+    cols = etas[::-1] if inp['col_rev'] else etas
+    ie = pd.DataFrame(rows, columns=etas, index=pd.Index(range(1, len(rows) + 1), name='ID'))[cols]
+    tag = f"variant {variant} estimates { {n: pe[n] for n in pnames} } individual estimates columns {cols} rows(ETA_CL,ETA_VC) {rows}"
+    fails = []
+    for sd in (False, True):
+        if inp['col_rev'] or inp['pe_rev']:
+            clause = C_E_NAME
+        elif variant == 'fix':
+            clause = C_E_FIX
+        else:
+            clause = C_E_SD if sd else C_E_VAR
+        want = {}
+        for j, e in enumerate(etas):
+            xs = [r[j] for r in rows]
+            want[e] = 1 - (_r_sd(xs) / math.sqrt(omega[e]) if sd else _r_var(xs) / omega[e])
+        try:
+            got = calculate_eta_shrinkage(model, pes, ie, sd=sd)
+            if sorted(got.index) != sorted(etas) or not all(_close(got[e], want[e]) for e in etas):
+                fails.append((FID_ESH, clause, f'{tag} sd={sd}: got {got.to_dict()}, formula {want}'))
+        except Exception as e:
+            fails.append((FID_ESH, clause, f'{tag} sd={sd}: raised {type(e).__name__}: {e}'))
+    return fails
+
+
+def _esh_inputs(tier):
+    thorough = tier == 'thorough'
+    dom = []
+    vecs = list(itertools.product(ETA_GRID, repeat=2))
+    for n in range(2, (5 if thorough else 4) + 1):
+        for ms in itertools.combinations_with_replacement(vecs, n):
+            rows = [list(v) for v in ms]
+            for om in itertools.product(OMEGA_GRID, repeat=2):
+                for variant, col_rev, pe_rev in (('pheno', False, False), ('pheno', True, False), ('pheno', False, True),
+                                                 ('fix', False, False)):
+                    if n == 4 and not thorough and om != (0.04, 0.09):
+                        continue
+                    dom.append(dict(rows=rows, om=list(om), variant=variant, col_rev=col_rev, pe_rev=pe_rev))
+    return dom
+
+
+IVAR_GRID = [0.01, 0.02, 0.05]
+
+
+def _ish_check(inp):
+    import pandas as pd
+    from pharmpy.modeling import calculate_individual_shrinkage
+
+    env = _rank_env()
+    model = env['variants']['pheno']
+    etas = ['ETA_CL', 'ETA_VC']
+    omega = {'ETA_CL': inp['om'][0], 'ETA_VC': inp['om'][1]}
+    pes = pd.Series({'POP_CL': 0.005, 'POP_VC': 1.0, 'COVAPGR': 0.1, 'IIV_CL': omega['ETA_CL'],
+                     'IIV_VC': omega['ETA_VC'], 'SIGMA': 0.013})
+    mats, want = [], []
+    for k, (v1, v2) in enumerate(inp['vars']):
+        order = etas[::-1] if (inp['perm'] and k % 2 == 1) else etas
+        mats.append(_labelled([[v1, 0.001], [0.001, v2]], etas, order))
+        want.append({'ETA_CL': v1 / omega['ETA_CL'], 'ETA_VC': v2 / omega['ETA_VC']})
+    ids = list(range(1, len(mats) + 1))
+    covs = pd.Series(mats, index=pd.Index(ids, name='ID'), dtype=object)
+    clause = C_I_NAME if inp['perm'] else C_I_FORM
+    tag = f"omegas {omega} individual variances (ETA_CL,ETA_VC) {inp['vars']} odd individuals' matrix labels reversed={inp['perm']}"
+    try:
+        got = calculate_individual_shrinkage(model, pes, covs)
+        ok = list(got.index) == ids and sorted(got.columns) == sorted(etas)
+        ok = ok and all(_close(got.loc[i, e], want[i - 1][e]) for i in ids for e in etas)
+        if not ok:
+            return [(FID_ISH, clause, f'{tag}: got {got.to_dict("index")}, formula {want}')]
+    except Exception as e:
+        return [(FID_ISH, clause, f'{tag}: raised {type(e).__name__}: {e}')]
+    return []
+
+
+def _ish_inputs(tier):
+    dom = []
+    vecs = list(itertools.product(IVAR_GRID, repeat=2))
+    for n in range(1, (4 if tier == 'thorough' else 3) + 1):
+        for vs in itertools.product(vecs, repeat=n):
+            if n == 3 and tier != 'thorough' and vs[2] != vecs[5]:
+                continue
+            for om in ((0.04, 0.09), (0.09, 0.04)):
+                for perm in ((False, True) if n >= 2 else (False,)):
+                    dom.append(dict(vars=[list(v) for v in vs], om=list(om), perm=perm))
+    return dom
+
+
+# ---- delta method ---------------------------------------------------------------------------
+
+C_D_FORM = 'se = sqrt(g^T cov g) with g the gradient of the expression at the estimates, parameters matched by NAME (cov may list more parameters, in any order)'
+DELTA_EXPRS = {
+    'A': lambda a, b, c: (1.0, 0.0, 0.0),
+    '3*A': lambda a, b, c: (3.0, 0.0, 0.0),
+    'A + B': lambda a, b, c: (1.0, 1.0, 0.0),
+    'A - B': lambda a, b, c: (1.0, -1.0, 0.0),
+    'A*B': lambda a, b, c: (b, a, 0.0),
+    'A/B': lambda a, b, c: (1 / b, -a / b ** 2, 0.0),
+    'B/A': lambda a, b, c: (-b / a ** 2, 1 / a, 0.0),
+    'exp(A)*B': lambda a, b, c: (math.exp(a) * b, math.exp(a), 0.0),
+    'A**2 + C': lambda a, b, c: (2 * a, 0.0, 1.0),
+    'A*B + C': lambda a, b, c: (b, a, 1.0),
+    'C*exp(B)/A': lambda a, b, c: (-c * math.exp(b) / a ** 2, c * math.exp(b) / a, math.exp(b) / a),
+    'sqrt(C**2)*A': lambda a, b, c: (abs(c), 0.0, a * (1 if c > 0 else -1)),
+}
+
+
+def _delta_check(inp):
+    import pandas as pd
+    import sympy
+    from pharmpy.internals.math import se_delta_method
+
+    names = PNAMES
+    vals = dict(zip(names, inp['vals']))
+    expr = sympy.sympify(inp['expr'], locals={n: sympy.Symbol(n) for n in names})
+    cov = _labelled(COVS[3] if inp['cov'] == 0 else COVS_ALT[3], names, _rot(names, inp['rot']))
+    cm = COVS[3] if inp['cov'] == 0 else COVS_ALT[3]
+    g = DELTA_EXPRS[inp['expr']](*inp['vals'])
+    want = math.sqrt(sum(g[i] * cm[i][j] * g[j] for i in range(3) for j in range(3)))
+    values = pd.Series({n: vals[n] for n in _rot(names, 2)}) if inp['series'] else dict(vals)
+    tag = f"expr {inp['expr']} at {vals} cov {cm} cov label order {list(cov.columns)} values as {'Series' if inp['series'] else 'dict'}"
+    snap = cov.values.tolist()
+    try:
+        got = se_delta_method(expr, values, cov)
+        if not _close(got, want):
+            return [(FID_DELTA, C_D_FORM, f'{tag}: got {got}, formula {want}')]
+        if cov.values.tolist() != snap:
+            return [(FID_DELTA, C_D_FORM, f'{tag}: covariance matrix mutated')]
+    except Exception as e:
+        return [(FID_DELTA, C_D_FORM, f'{tag}: raised {type(e).__name__}: {e}')]
+    return []
+
+
+def _delta_inputs(tier):
+    dom = []
+    for expr in DELTA_EXPRS:
+        for vals in itertools.product(GRID, repeat=3):
+            for cov in (0, 1):
+                for rot in (0, 1, 2):
+                    for series in (False, True):
+                        if tier != 'thorough' and series and rot != 1:
+                            continue
+                        dom.append(dict(expr=expr, vals=list(vals), cov=cov, rot=rot, series=series))
+    return dom
+
+
+STAT_KINDS = {
+    'boot': (_boot_check, _boot_inputs, 8),
+    'cook': (_cook_check, _cook_inputs, 4),
+    'crat': (_crat_check, _crat_inputs, 2),
+    'cdd': (_cdd_check, _cdd_inputs, 8),
+    'esh': (_esh_check, _esh_inputs, 8),
+    'ish': (_ish_check, _ish_inputs, 4),
+    'delta': (_delta_check, _delta_inputs, 8),
+}
+
+
+def _stat_worker(task):
+    kind, items = task
+    fn = STAT_KINDS[kind][0]
+    if kind in ('esh', 'ish'):
+        _rank_env()
+    col = _Collector()
+    for n, (i, inp) in enumerate(items):
+        col.cases += 1
+        col.nontrivial += 1
+        try:
+            fails = fn(inp)
+        except Exception as e:
+            fails = [('contracts/b_rank.py', 'checker error', f'{type(e).__name__}: {e} on {inp}')]
+        if not col.samples and n == 2:
+            col.samples.append(kind + ':' + json.dumps(_js(inp))[:160])
+        for fid, clause, detail in fails:
+            col.fail((0, i), fid, clause, detail, kind, inp, 'bounded_tool_statistics_replay')
+    return col.export()
+
+
+def bounded_tool_statistics(tier):
+    _rank_env()
+    col = _Collector()
+    tasks = []
+    for kind, (fn, gen, nchunks) in STAT_KINDS.items():
+        inputs = list(enumerate(gen(tier)))
+        nch = nchunks * 2
+        for c in range(nch):
+            part = inputs[c::nch]
+            if part:
+                tasks.append((kind, part))
+    # longest tasks (bootstrap) first
+    for part in _pool_map(_stat_worker, tasks):
+        col.merge(part)
+    th = tier == 'thorough'
+    bound = (f'all tables (multisets of rows) over the grid {GRID}: bootstrap <= 2 parameters x <= 4 replicates and 3 x <= '
+             f'{4 if th else 2} (every replicate lists the labels in a different order); Cook score / jackknife <= 3 parameters '
+             f'x <= {4 if th else 2} cases (p<3: 4) x 4 label-order arrangements; covariance ratios <= 3 cases x 5 kinds x p<=3; '
+             f'cdd calculate_results <= 2 parameters x <= {4 if th else 3} cases x missing case; eta shrinkage: 2 etas x '
+             f'{2}-{5 if th else 4} individuals over {ETA_GRID} x omegas {OMEGA_GRID}^2 x column/label orders x FIXed omega; '
+             f'individual shrinkage <= {4 if th else 3} individuals over {IVAR_GRID}^2; delta method: {len(DELTA_EXPRS)} '
+             f'expressions x grid^3 x 2 covariance matrices x 3 label orders')
+    return col.result(bound)
+
+
+def bounded_tool_statistics_replay(rp):
+    case = rp['case']
+    inp = _unjs(case['input'])
+    fn = STAT_KINDS[case['kind']][0]
+    if case['kind'] in ('esh', 'ish'):
+        _rank_env()
+    for _, c, d in fn(inp):
+        if c == case['clause']:
+            return (False, d)
+    return (True, 'ok')
+
+
+# ================================================================================================
+# (3) NONMEM output tables (C20)
+# ================================================================================================
+
+FID_TF = 'src/pharmpy/model/external/nonmem/table.py:NONMEMTableFile._parse_table'
+FID_EXT = 'src/pharmpy/model/external/nonmem/table.py:ExtTable'
+FID_PHI = 'src/pharmpy/model/external/nonmem/table.py:PhiTable'
+FID_COV = 'src/pharmpy/model/external/nonmem/table.py:CovTable.data_frame'
+FID_TAB = 'src/pharmpy/model/external/nonmem/table.py:NONMEMTable'
+FID_MMATH = 'src/pharmpy/modeling/math.py'
+FID_TRI = 'src/pharmpy/internals/math.py:triangular_root'
+FID_F2S = 'src/pharmpy/internals/math.py:flattened_to_symmetric'
+FID_JSON = 'src/pharmpy/workflows/results.py:ResultsJSONEncoder'
+FID_PARSE = 'src/pharmpy/tools/external/nonmem/results.py:parse_modelfit_results'
+
+# ---- reference renderer (docs/NONMEM.rst and the example files pheno.ext / pheno.phi / pheno.cov) --
+
+ITER_FINAL, ITER_SE, ITER_EIG, ITER_COND, ITER_SDC, ITER_SESDC, ITER_FIX, ITER_TERM, ITER_GRD = (
+    -1000000000, -1000000001, -1000000002, -1000000003, -1000000004, -1000000005, -1000000006, -1000000007,
+    -1000000008)
+# printed tokens (1PE13.5 style); the reference value of a cell is float(token)
+ETOKENS = ['4.69307E-03', '1.00916E+00', '-1.58920E-01', '1.30865E-02', '-7.29745E-01', '3.11280E-02',
+           '2.93508E+02', '9.99999E+05', '-2.17770E-02', '1.23457E-15', '5.00000E+00', '-6.80894E-03', '8.37555E-02']
+OBJTOKENS = ['587.36644134661617', '-1234.5678901234567', '12.970590911348660', '-0.12345678901234567',
+             '5.9473520224225034', '100000.00000000000', '0.91847204695940881']
+METHODS = [
+    ('First Order Conditional Estimation with Interaction', None, 'MINIMUM VALUE OF OBJECTIVE FUNCTION', 'OBJ'),
+    ('First Order Conditional Estimation with Interaction (Evaluation)', None, 'MINIMUM VALUE OF OBJECTIVE FUNCTION', 'OBJ'),
+    ('Objective Function Evaluation by Importance Sampling', None, 'FINAL VALUE OF OBJECTIVE FUNCTION', 'OBJ'),
+    ('Stochastic Approximation Expectation-Maximization', None, 'FINAL VALUE OF LIKELIHOOD FUNCTION', 'SAEMOBJ'),
+    ('MCMC Bayesian Analysis', None, 'AVERAGE VALUE OF LIKELIHOOD FUNCTION', 'MCMCOBJ'),
+    ('First Order (Evaluation)', 'D-OPTIMALITY', 'MINIMUM VALUE OF OBJECTIVE FUNCTION', 'OBJ'),
+    ('First Order', None, None, 'OBJ'),
+]
+
+
+def _title(number, method, design, goal, problem=1, sub=0, sup1=0, it1=0, sup2=0, it2=0):
+    s = 'TABLE NO. %5d: %s' % (number, method)
+    if design:
+        s += ': ' + design
+    if goal:
+        s += ': Goal Function=' + goal
+    s += ': Problem=%d Subproblem=%d Superproblem1=%d Iteration1=%d Superproblem2=%d Iteration2=%d' % (
+        problem, sub, sup1, it1, sup2, it2)
+    return s
+
+
+def _header(names):
+    return ' ' + ''.join(n.ljust(13) for n in names[:-1]) + names[-1]
+
+
+def _par_labels(ntheta, omega):
+    """file order (THETA, SIGMA, OMEGA) and pharmpy order (THETA(n), OMEGA, SIGMA)"""
+    thetas = [f'THETA{i}' for i in range(1, ntheta + 1)]
+    omegas = ['OMEGA(1,1)'] if omega == 'diag1' else ['OMEGA(1,1)', 'OMEGA(2,1)', 'OMEGA(2,2)']
+    sigmas = ['SIGMA(1,1)']
+    file_order = thetas + sigmas + omegas
+    parsed = [f'THETA({i})' for i in range(1, ntheta + 1)] + omegas + sigmas
+    to_parsed = dict(zip(thetas, parsed[:ntheta]))
+    return file_order, parsed, lambda n: to_parsed.get(n, n)
+
+
+def _tok(i):
+    return ETOKENS[i % len(ETOKENS)]
+
+
+def _ext_table_spec(cfg, number):
+    """rows of an ext table: list of (iteration, {file label: token}, objtoken)"""
+    ntheta, omega, fixed, iters, mask, vs, meth = (cfg['ntheta'], cfg['omega'], cfg['fixed'], cfg['iters'],
+                                                   cfg['mask'], cfg['vs'], cfg['method'])
+    file_order, parsed, ren = _par_labels(ntheta, omega)
+    fixset = {0: [], 1: [file_order[ntheta - 1]], 2: [file_order[-1] if omega == 'diag1' else 'OMEGA(2,1)'],
+              3: ['SIGMA(1,1)']}[fixed]
+    rows = []
+    seed = vs * 5 + number * 3
+
+    def row(it, k, obj=None, zero_theta=False, flags=None):
+        cells = {}
+        for j, lab in enumerate(file_order):
+            if flags is not None:
+                cells[lab] = '1.00000E+00' if lab in flags else '0.00000E+00'
+            elif zero_theta and lab.startswith('THETA'):
+                cells[lab] = '0.00000E+00'
+            else:
+                cells[lab] = _tok(seed + k * 7 + j * 3)
+        rows.append((it, cells, obj if obj is not None else '0.0000000000000000'))
+
+    for k, it in enumerate(iters):
+        row(it, k, OBJTOKENS[(seed + k) % len(OBJTOKENS)])
+    has = lambda b: bool(mask & (1 << b))  # noqa
+    if has(0):
+        row(ITER_FINAL, 10, OBJTOKENS[(seed + 4) % len(OBJTOKENS)])
+    if has(1):
+        row(ITER_SE, 11)
+        row(ITER_EIG, 12)
+    if has(2):
+        row(ITER_COND, 13)
+    if has(3):
+        row(ITER_SDC, 14, zero_theta=True)
+        row(ITER_SESDC, 15, zero_theta=True)
+    if has(4):
+        row(ITER_FIX, 16, flags=fixset)
+        row(ITER_TERM, 17)
+        row(ITER_GRD, 18)
+    return dict(number=number, method=METHODS[meth], file_order=file_order, parsed=parsed, ren=ren, rows=rows,
+                problem=1 + (number - 1) % 2, sub=(number - 1))
+
+
+def _render_ext(tables):
+    lines = []
+    for t in tables:
+        m, design, goal, objname = t['method']
+        lines.append(_title(t['number'], m, design, goal, problem=t['problem'], sub=t['sub']))
+        lines.append(_header(['ITERATION'] + t['file_order'] + [objname]))
+        for it, cells, obj in t['rows']:
+            lines.append('%13d' % it + ''.join(cells[lab].rjust(13) for lab in t['file_order']) + obj.rjust(22))
+    return '\n'.join(lines) + '\n'
+
+
+C_TF_SPLIT = 'a table file is split into one table per "TABLE NO." line, in order, with the table number of that line'
+C_TF_META = 'method, design optimality, goal function, problem, subproblem, superproblem and iteration numbers are those of the "TABLE NO." line'
+C_TF_EVAL = 'is_evaluation is True exactly for tables whose method is marked "(Evaluation)"'
+C_X_DF = 'ExtTable.data_frame has the written rows in order: ITERATION, every parameter under its label (THETA(n), OMEGA(i,j), SIGMA(i,j)) and OBJ equal to the printed numbers'
+C_X_ITER = 'ExtTable.iterations lists the written non-negative iteration numbers in order'
+C_X_FINAL = 'final_parameter_estimates is the row -1000000000, or the last iteration when that row is absent'
+C_X_SE = 'standard_errors is the row -1000000001 (KeyError when absent)'
+C_X_FIX = 'fixed holds the flags of row -1000000006 as booleans (KeyError when absent)'
+C_X_OFV = 'final_ofv is OBJ of row -1000000000 or else of the last iteration; initial_ofv is OBJ of iteration 0 or else of row -1000000000'
+C_X_AUX = 'condition_number, omega_sigma_stdcorr and omega_sigma_se_stdcorr are taken from rows -1000000003, -1000000004 and -1000000005 (KeyError when absent)'
+
+
+def _series_eq(ser, want):
+    """ser: pandas Series; want: dict label -> value; exact equality of printed values"""
+    return sorted(ser.index) == sorted(want) and all(_close(ser[k], v, 0, 0) for k, v in want.items())
+
+
+def _ext_check(inp):
+    import tempfile
+
+    from pharmpy.model.external.nonmem.table import ExtTable, NONMEMTableFile
+
+    specs = [_ext_table_spec(cfg, i + 1) for i, cfg in enumerate(inp['tables'])]
+    text = _render_ext(specs)
+    fails = []
+
+    def add(fid, clause, detail):
+        if all(c != clause for _, c, _ in fails):
+            fails.append((fid, clause, detail + ' | file:\n' + text[:1500]))
+
+    with tempfile.TemporaryDirectory() as d:
+        path = os.path.join(d, 'run1.ext')
+        with open(path, 'w') as fh:
+            fh.write(text)
+        try:
+            tf = NONMEMTableFile(path)
+        except Exception as e:
+            return [(FID_TF, C_TF_SPLIT, f'raised {type(e).__name__}: {e} | file:\n{text[:1500]}')]
+    if len(tf) != len(specs) or [t.number for t in tf] != [s['number'] for s in specs] or \
+            not all(isinstance(t, ExtTable) for t in tf):
+        add(FID_TF, C_TF_SPLIT, f'got {len(tf)} tables numbered {[t.number for t in tf]}')
+        return fails
+    for t, s in zip(tf, specs):
+        m, design, goal, objname = s['method']
+        gotmeta = (t.method, t.design_optimality, t.goal_function, t.problem, t.subproblem, t.superproblem1,
+                   t.iteration1, t.superproblem2, t.iteration2)
+        wantmeta = (m, design, goal, s['problem'], s['sub'], 0, 0, 0, 0)
+        if gotmeta != wantmeta:
+            add(FID_TF, C_TF_META, f"table {s['number']}: got {gotmeta}, written {wantmeta}")
+        if bool(t.is_evaluation) != m.endswith('(Evaluation)'):
+            add(FID_TF, C_TF_EVAL, f"table {s['number']} method '{m}': is_evaluation={t.is_evaluation}")
+        if tf.table_no(s['number']) is not t:
+            add(FID_TF, C_TF_SPLIT, f"table_no({s['number']}) does not return that table")
+        ren = s['ren']
+        rows = s['rows']
+        want_cols = ['ITERATION'] + s['parsed'] + ['OBJ']
+        try:
+            df = t.data_frame
+            ok = list(df.columns) == want_cols and len(df) == len(rows)
+            if ok:
+                for r, (it, cells, obj) in enumerate(rows):
+                    ok = ok and df['ITERATION'].iloc[r] == it and _close(df['OBJ'].iloc[r], float(obj), 0, 0)
+                    for lab, tok in cells.items():
+                        ok = ok and _close(df[ren(lab)].iloc[r], float(tok), 0, 0)
+            if not ok:
+                add(FID_EXT + '.data_frame', C_X_DF, f"table {s['number']}: columns {list(df.columns)}, {len(df)} rows, "
+                                                     f'values {df.values.tolist()}')
+        except Exception as e:
+            add(FID_EXT + '.data_frame', C_X_DF, f"table {s['number']}: raised {type(e).__name__}: {e}")
+            continue
+        byiter = {}
+        for it, cells, obj in rows:
+            byiter[it] = ({ren(k): float(v) for k, v in cells.items()}, float(obj))
+        its = [it for it, _, _ in rows if it >= 0]
+
+        def attempt(fn):
+            try:
+                return fn()
+            except Exception as e:  # noqa
+                return e
+
+        got = attempt(lambda: t.iterations)
+        if isinstance(got, Exception) or [int(x) for x in got] != its:
+            add(FID_EXT + '.iterations', C_X_ITER, f"table {s['number']}: got {got!r}, written {its}")
+        # final estimates / ofv
+        src = ITER_FINAL if ITER_FINAL in byiter else (max(its) if its else None)
+        if src is not None:
+            got = attempt(lambda: t.final_parameter_estimates)
+            if isinstance(got, Exception) or not _series_eq(got, byiter[src][0]) or got.name != 'estimates':
+                add(FID_EXT + '.final_parameter_estimates', C_X_FINAL,
+                    f"table {s['number']}: got {got!r}, designated row {src}: {byiter[src][0]}")
+            got = attempt(lambda: t.final_ofv)
+            if isinstance(got, Exception) or not _close(got, byiter[src][1], 0, 0):
+                add(FID_EXT + '.final_ofv', C_X_OFV, f"table {s['number']}: final_ofv {got!r}, designated row {src}: {byiter[src][1]}")
+        src0 = 0 if 0 in byiter else (ITER_FINAL if ITER_FINAL in byiter else None)
+        got = attempt(lambda: t.initial_ofv)
+        if src0 is None:
+            if not isinstance(got, KeyError):
+                add(FID_EXT + '.initial_ofv', C_X_OFV, f"table {s['number']}: initial_ofv {got!r} although neither row exists")
+        elif isinstance(got, Exception) or not _close(got, byiter[src0][1], 0, 0):
+            add(FID_EXT + '.initial_ofv', C_X_OFV, f"table {s['number']}: initial_ofv {got!r}, designated row {src0}: {byiter[src0][1]}")
+        # rows by code
+        for code, getter, clause, sub, post in (
+                (ITER_SE, lambda: t.standard_errors, C_X_SE, 'standard_errors', None),
+                (ITER_FIX, lambda: t.fixed, C_X_FIX, 'fixed', 'bool'),
+                (ITER_SDC, lambda: t.omega_sigma_stdcorr, C_X_AUX, 'omega_sigma_stdcorr', 'nothetas'),
+                (ITER_SESDC, lambda: t.omega_sigma_se_stdcorr, C_X_AUX, 'omega_sigma_se_stdcorr', 'nothetas')):
+            got = attempt(getter)
+            if code not in byiter:
+                if not isinstance(got, KeyError):
+                    add(FID_EXT + '.' + sub, clause, f"table {s['number']}: row {code} absent but got {got!r}")
+                continue
+            want = dict(byiter[code][0])
+            if post == 'nothetas':
+                want = {k: v for k, v in want.items() if not k.startswith('THETA')}
+            if isinstance(got, Exception):
+                add(FID_EXT + '.' + sub, clause, f"table {s['number']}: raised {type(got).__name__}: {got}")
+            elif post == 'bool':
+                if sorted(got.index) != sorted(want) or any(bool(got[k]) != (v != 0) or not isinstance(got[k], (bool,)) and
+                                                             type(got[k]).__name__ not in ('bool', 'bool_', 'bool')
+                                                             for k, v in want.items()):
+                    add(FID_EXT + '.' + sub, clause, f"table {s['number']}: got {got.to_dict()}, row {code}: {want}")
+            elif not _series_eq(got, want):
+                add(FID_EXT + '.' + sub, clause, f"table {s['number']}: got {got.to_dict()}, row {code}: {want}")
+        got = attempt(lambda: t.condition_number)
+        if ITER_COND not in byiter:
+            if not isinstance(got, KeyError):
+                add(FID_EXT + '.condition_number', C_X_AUX, f"table {s['number']}: row absent but got {got!r}")
+        elif isinstance(got, Exception) or not _close(got, byiter[ITER_COND][0]['THETA(1)'], 0, 0):
+            add(FID_EXT + '.condition_number', C_X_AUX, f"table {s['number']}: got {got!r}, row -1000000003 first value "
+                                                        f"{byiter[ITER_COND][0]['THETA(1)']}")
+    return fails
+
+
+EXT_ITERS = [[0], [0, 12], [0, 5, 12], [], [3, 7]]
+
+
+def _ext_inputs(tier):
+    thorough = tier == 'thorough'
+    dom = []
+    k = 0
+    for ntheta in (1, 2, 3):
+        for omega in ('diag1', 'block2'):
+            for fixed in range(4):
+                for iters in EXT_ITERS:
+                    for mask in range(32):
+                        if not iters and not (mask & 1):
+                            continue           # NONMEM always writes at least one row of estimates
+                        for vs in ((0, 1, 2) if thorough else (0,)):
+                            cfg = dict(ntheta=ntheta, omega=omega, fixed=fixed, iters=iters, mask=mask, vs=vs,
+                                       method=k % len(METHODS))
+                            k += 1
+                            dom.append(dict(tables=[cfg]))
+    # two (thorough: three) estimation steps in one file
+    for ntheta in (1, 3):
+        for omega in ('diag1', 'block2'):
+            for iters in ([0, 12], []):
+                for m1 in (0b11111, 0b00001, 0b10011):
+                    for m2 in (0b11111, 0b00000, 0b01101):
+                        for meth in range(len(METHODS)):
+                            if not iters and not ((m1 & 1) and (m2 & 1)):
+                                continue
+                            t1 = dict(ntheta=ntheta, omega=omega, fixed=2, iters=iters, mask=m1, vs=0, method=meth)
+                            t2 = dict(ntheta=ntheta, omega=omega, fixed=2, iters=iters, mask=m2, vs=1,
+                                      method=(meth + 3) % len(METHODS))
+                            tabs = [t1, t2]
+                            if thorough:
+                                tabs.append(dict(t1, vs=2, method=(meth + 5) % len(METHODS)))
+                            dom.append(dict(tables=tabs))
+    return dom
+
+
+# ---- phi ------------------------------------------------------------------------------------
+
+C_P_ALL = 'PhiTable iofv / etas / etcs hold, per individual ID, the printed OBJ, ETA (PHI) values and the ETC (PHC) values as a symmetric matrix labelled ETA(n); individuals with an all-zero line are dropped'
+PHI_IDS = [1, 5, 12]
+
+
+def _phi_spec(cfg, number):
+    n, N, zero, phc, vs = cfg['netas'], cfg['nind'], cfg['zero'], cfg['phc'], cfg['vs']
+    e, c = ('PHI', 'PHC') if phc else ('ETA', 'ETC')
+    etas = [f'{e}({i})' for i in range(1, n + 1)]
+    etcs = [f'{c}({i},{j})' for i in range(1, n + 1) for j in range(1, i + 1)]
+    rows = []
+    for k in range(N):
+        if k == zero:
+            cells = {lab: '0.00000E+00' for lab in etas + etcs}
+            obj = '0.0000000000000000'
+        else:
+            cells = {lab: _tok(vs * 5 + number + k * 7 + j * 3) for j, lab in enumerate(etas + etcs)}
+            obj = OBJTOKENS[(vs + number + k) % len(OBJTOKENS)]
+        rows.append((k + 1, PHI_IDS[k], cells, obj))
+    return dict(number=number, etas=etas, etcs=etcs, rows=rows, n=n)
+
+
+def _render_phi(tables):
+    lines = []
+    for t in tables:
+        lines.append(_title(t['number'], METHODS[0][0], None, None))
+        labs = t['etas'] + t['etcs']
+        lines.append(_header(['SUBJECT_NO', 'ID'] + labs + ['OBJ']))
+        for sno, ident, cells, obj in t['rows']:
+            lines.append('%13d%13d' % (sno, ident) + ''.join(cells[lab].rjust(13) for lab in labs) + obj.rjust(22))
+    return '\n'.join(lines) + '\n'
+
+
+def _phi_check(inp):
+    import tempfile
+
+    from pharmpy.model.external.nonmem.table import NONMEMTableFile, PhiTable
+
+    specs = [_phi_spec(cfg, i + 1) for i, cfg in enumerate(inp['tables'])]
+    text = _render_phi(specs)
+    with tempfile.TemporaryDirectory() as d:
+        path = os.path.join(d, 'run1.phi')
+        with open(path, 'w') as fh:
+            fh.write(text)
+        try:
+            tf = NONMEMTableFile(path)
+        except Exception as e:
+            return [(FID_TF, C_TF_SPLIT, f'raised {type(e).__name__}: {e} | file:\n{text[:1200]}')]
+    if [t.number for t in tf] != [s['number'] for s in specs] or not all(isinstance(t, PhiTable) for t in tf):
+        return [(FID_TF, C_TF_SPLIT, f'got tables {[t.number for t in tf]} | file:\n{text[:1200]}')]
+    fails = []
+    for t, s in zip(tf, specs):
+        keep = [r for r in s['rows'] if any(float(v) != 0 for v in r[2].values()) or float(r[3]) != 0]
+        n = s['n']
+        try:
+            iofv, etas, etcs = t.iofv, t.etas, t.etcs
+            ok = [int(x) for x in iofv.index] == [r[1] for r in keep]
+            ok = ok and all(_close(iofv.iloc[i], float(r[3]), 0, 0) for i, r in enumerate(keep))
+            ok = ok and list(etas.columns) == s['etas'] and [int(x) for x in etas.index] == [r[1] for r in keep]
+            ok = ok and all(_close(etas[lab].iloc[i], float(r[2][lab]), 0, 0) for i, r in enumerate(keep) for lab in s['etas'])
+            ok = ok and [int(x) for x in etcs.index] == [r[1] for r in keep]
+            enames = [f'ETA({i})' for i in range(1, n + 1)]
+            for i, r in enumerate(keep):
+                m = etcs.iloc[i]
+                ok = ok and list(m.columns) == enames and list(m.index) == enames
+                for a in range(1, n + 1):
+                    for b in range(1, a + 1):
+                        lab = s['etcs'][0][:3] + f'({a},{b})'
+                        w = float(r[2][lab])
+                        ok = ok and _close(m.iloc[a - 1, b - 1], w, 0, 0) and _close(m.iloc[b - 1, a - 1], w, 0, 0)
+            if not ok:
+                fails.append((FID_PHI, C_P_ALL, f"table {s['number']}: iofv {iofv.to_dict()} etas {etas.to_dict('index')} "
+                                                f"etcs {[m.values.tolist() for m in etcs]} | file:\n{text[:1200]}"))
+        except Exception as e:
+            fails.append((FID_PHI, C_P_ALL, f"table {s['number']}: raised {type(e).__name__}: {e} | file:\n{text[:1200]}"))
+        if fails:
+            break
+    return fails
+
+
+def _phi_inputs(tier):
+    dom = []
+    for netas in (1, 2, 3):
+        for nind in (1, 2, 3):
+            for zero in [None] + list(range(nind)):
+                for phc in (False, True):
+                    for vs in ((0, 1, 2) if tier == 'thorough' else (0, 1)):
+                        cfg = dict(netas=netas, nind=nind, zero=zero, phc=phc, vs=vs)
+                        dom.append(dict(tables=[cfg]))
+                        dom.append(dict(tables=[cfg, dict(cfg, vs=vs + 1, zero=None)]))
+    return dom
+
+
+# ---- cov / cor / coi and the matrix relations ---------------------------------------------------
+
+C_V_DF = 'CovTable.data_frame is the written matrix labelled THETA(n)/OMEGA/SIGMA in that order (rows and columns), without the all-zero rows and columns of FIXed parameters'
+C_M_CORR = 'calculate_corr_from_cov(cov) = D^-1 cov D^-1 with D = sqrt(diag(cov)), keeping the labels'
+C_M_SE = 'calculate_se_from_cov(cov) = sqrt(diag(cov)) and calculate_se_from_prec(P) = sqrt(diag(P^-1)), labelled'
+C_M_PREC = 'calculate_prec_from_cov(cov) = cov^-1 and calculate_cov_from_prec(P) = P^-1, keeping the labels'
+C_M_CORRSE = 'calculate_cov_from_corrse(corr, se) = D corr D and calculate_prec_from_corrse = its inverse, calculate_corr_from_prec(P) = corr of P^-1'
+C_M_NAME = 'calculate_cov_from_corrse / calculate_prec_from_corrse pair each standard error with the row/column of the same NAME when the Series lists the labels in another order'
+C_M_FILES = 'cov, cor and coi read from rendered files of one positive definite matrix satisfy cor = D^-1 cov D^-1 and coi = cov^-1 to printed precision'
+SCALES = [2.09967e-04, 2.68946e-02, 8.37555e-02, 2.27991e-03, 1.34156e-02, 7.47591e-03, 5.1e-01]
+
+
+def _pd_matrix(n, vs):
+    """deterministic positive definite matrix: D R D with a diagonally dominant correlation matrix R"""
+    R = [[1.0 if i == j else ((-1) ** (i + j + vs)) * (0.35 if vs % 2 else 0.2) / (1 + abs(i - j)) for j in range(n)]
+         for i in range(n)]
+    sc = [SCALES[(i * 2 + vs) % len(SCALES)] for i in range(n)]
+    return [[sc[i] * R[i][j] * sc[j] for j in range(n)] for i in range(n)]
+
+
+def _etok(x):
+    return '%.5E' % x
+
+
+def _render_matrix(file_order, live, mat_tokens, number=1):
+    """mat_tokens: dict (a,b) -> token for live labels; other cells zero"""
+    lines = [_title(number, METHODS[0][0], None, None), _header(['NAME'] + file_order)]
+    for a in file_order:
+        cells = [mat_tokens.get((a, b), '0.00000E+00') for b in file_order]
+        lines.append(' ' + a.ljust(12) + ''.join(c.rjust(13) for c in cells))
+    return '\n'.join(lines) + '\n'
+
+
+def _inv(m):
+    n = len(m)
+    a = [list(map(float, m[i])) + [1.0 if i == j else 0.0 for j in range(n)] for i in range(n)]
+    for c in range(n):
+        piv = max(range(c, n), key=lambda r: abs(a[r][c]))
+        a[c], a[piv] = a[piv], a[c]
+        pv = a[c][c]
+        a[c] = [x / pv for x in a[c]]
+        for r in range(n):
+            if r != c:
+                f = a[r][c]
+                a[r] = [x - f * y for x, y in zip(a[r], a[c])]
+    return [row[n:] for row in a]
+
+
+def _cov_check(inp):
+    import tempfile
+
+    import pandas as pd
+    import pharmpy.modeling as pm
+    from pharmpy.model.external.nonmem.table import CovTable, NONMEMTableFile
+
+    file_order, parsed, ren = _par_labels(inp['ntheta'], inp['omega'])
+    ntheta = inp['ntheta']
+    fixset = {0: [], 1: [file_order[ntheta - 1]], 2: [file_order[-1] if inp['omega'] == 'diag1' else 'OMEGA(2,1)'],
+              3: ['SIGMA(1,1)']}[inp['fixed']]
+    live = [lab for lab in file_order if lab not in fixset]
+    n = len(live)
+    cov = _pd_matrix(n, inp['vs'])
+    se = [math.sqrt(cov[i][i]) for i in range(n)]
+    cor = [[se[i] if i == j else cov[i][j] / (se[i] * se[j]) for j in range(n)] for i in range(n)]
+    coi = _inv(cov)
+    fails = []
+    parsed_mats = {}
+    live_parsed = [p for p in parsed if p in {ren(x) for x in live}]
+    for suffix, mat in (('.cov', cov), ('.cor', cor), ('.coi', coi)):
+        toks = {(a, b): _etok(mat[i][j]) for i, a in enumerate(live) for j, b in enumerate(live)}
+        text = _render_matrix(file_order, live, toks)
+        with tempfile.TemporaryDirectory() as d:
+            path = os.path.join(d, 'run1' + suffix)
+            with open(path, 'w') as fh:
+                fh.write(text)
+            try:
+                tf = NONMEMTableFile(path)
+                t = tf[0]
+                df = t.data_frame
+            except Exception as e:
+                fails.append((FID_COV, C_V_DF, f'{suffix}: raised {type(e).__name__}: {e} | file:\n{text[:1500]}'))
+                continue
+        ok = isinstance(t, CovTable) and list(df.index) == live_parsed and list(df.columns) == live_parsed
+        if ok:
+            for (a, b), tok in toks.items():
+                ok = ok and _close(df.loc[ren(a), ren(b)], float(tok), 0, 0)
+        if not ok:
+            if all(c != C_V_DF for _, c, _ in fails):
+                fails.append((FID_COV, C_V_DF, f'{suffix}: got index {list(df.index)} columns {list(df.columns)} values '
+                                               f'{df.values.tolist()} | file:\n{text[:1500]}'))
+        else:
+            parsed_mats[suffix] = df
+    if len(parsed_mats) < 3:
+        return fails
+    pcov, pcor, pcoi = parsed_mats['.cov'], parsed_mats['.cor'], parsed_mats['.coi']
+    labels = list(pcov.index)
+    C = [[float(pcov.loc[a, b]) for b in labels] for a in labels]
+    sd = [math.sqrt(C[i][i]) for i in range(n)]
+    Rref = [[C[i][j] / (sd[i] * sd[j]) for j in range(n)] for i in range(n)]
+    Pref = _inv(C)
+
+    def mat_ok(df, ref, rtol=1e-9, scale=None):
+        if list(df.index) != labels or list(df.columns) != labels:
+            return False
+        for i in range(n):
+            for j in range(n):
+                g, w = float(df.iloc[i, j]), ref[i][j]
+                if scale:
+                    g, w = g * scale[i] * scale[j], w * scale[i] * scale[j]
+                if not _close(g, w, rtol, rtol):
+                    return False
+        return True
+
+    def ser_ok(ser, ref, rtol=1e-9):
+        return list(ser.index) == labels and all(_close(ser.iloc[i], ref[i], rtol, 0) for i in range(n))
+
+    tag = f"labels {labels} cov {C}"
+    try:
+        if not mat_ok(pm.calculate_corr_from_cov(pcov), Rref):
+            fails.append((FID_MMATH + ':calculate_corr_from_cov', C_M_CORR, f'{tag}: got {pm.calculate_corr_from_cov(pcov).values.tolist()}, expected {Rref}'))
+        if not ser_ok(pm.calculate_se_from_cov(pcov), sd) or not ser_ok(pm.calculate_se_from_prec(pd.DataFrame(Pref, index=labels, columns=labels)), sd, 1e-7):
+            fails.append((FID_MMATH + ':calculate_se_from_cov', C_M_SE, f'{tag}: got {pm.calculate_se_from_cov(pcov).to_dict()}, expected {sd}'))
+        P = pd.DataFrame(Pref, index=labels, columns=labels)
+        if not mat_ok(pm.calculate_prec_from_cov(pcov), Pref, 1e-7, sd) or not mat_ok(pm.calculate_cov_from_prec(P), C, 1e-7, [1 / s for s in sd]):
+            fails.append((FID_MMATH + ':calculate_prec_from_cov', C_M_PREC, f'{tag}: got {pm.calculate_prec_from_cov(pcov).values.tolist()}, expected {Pref}'))
+        Rdf = pd.DataFrame(Rref, index=labels, columns=labels)
+        ses = pd.Series(sd, index=labels)
+        if not (mat_ok(pm.calculate_cov_from_corrse(Rdf, ses), C, 1e-9, [1 / s for s in sd])
+                and mat_ok(pm.calculate_prec_from_corrse(Rdf, ses), Pref, 1e-7, sd)
+                and mat_ok(pm.calculate_corr_from_prec(P), Rref, 1e-7)):
+            fails.append((FID_MMATH + ':calculate_cov_from_corrse', C_M_CORRSE, f'{tag}: corr {Rref} se {sd}: got '
+                                                                                 f'{pm.calculate_cov_from_corrse(Rdf, ses).values.tolist()}'))
+        if n >= 2:
+            ses_rev = ses[labels[::-1]]
+            if not (mat_ok(pm.calculate_cov_from_corrse(Rdf, ses_rev), C, 1e-9, [1 / s for s in sd])
+                    and mat_ok(pm.calculate_prec_from_corrse(Rdf, ses_rev), Pref, 1e-7, sd)):
+                fails.append((FID_MMATH + ':calculate_cov_from_corrse', C_M_NAME,
+                              f'corr labels {labels} {Rref}, se given as {ses_rev.to_dict()}: got '
+                              f'{pm.calculate_cov_from_corrse(Rdf, ses_rev).values.tolist()}, expected {C}'))
+    except Exception as e:
+        fails.append((FID_MMATH, C_M_CORR, f'{tag}: raised {type(e).__name__}: {e}'))
+    # relations between the three files, to printed precision (5 decimals of the mantissa)
+    ok = True
+    for i in range(n):
+        ok = ok and _close(float(pcor.iloc[i, i]), sd[i], 2e-5, 0)
+        for j in range(n):
+            if i != j:
+                ok = ok and _close(float(pcor.iloc[i, j]), Rref[i][j], 0, 2e-5)
+            ok = ok and _close(float(pcoi.iloc[i, j]) * sd[i] * sd[j], Pref[i][j] * sd[i] * sd[j], 0, 5e-4)
+    if not ok:
+        fails.append((FID_COV, C_M_FILES, f'{tag}: cor file {pcor.values.tolist()} coi file {pcoi.values.tolist()}'))
+    return fails
+
+
+def _cov_inputs(tier):
+    dom = []
+    for ntheta in (1, 2, 3):
+        for omega in ('diag1', 'block2'):
+            for fixed in range(4):
+                for vs in range(6 if tier == 'thorough' else 3):
+                    dom.append(dict(ntheta=ntheta, omega=omega, fixed=fixed, vs=vs))
+    return dom
+
+
+# ---- $TABLE files ---------------------------------------------------------------------------------
+
+C_T_ALL = '$TABLE files: every "TABLE NO." section is one table with the written column labels and rows (repeated header lines inside a section are dropped)'
+TAB_COLS = ['ID', 'TIME', 'DV', 'CIPREDI', 'PRED', 'RES', 'CWRES']
+TABTOKENS = ['1.0000E+00', '0.0000E+00', '1.7300E+01', '-6.7046E-01', '1.8143E+01', '-4.0104E-01', '2.5000E+02',
+             '9.9999E-05']
+
+
+def _tab_check(inp):
+    import tempfile
+
+    from pharmpy.model.external.nonmem.table import NONMEMTableFile
+
+    lines = []
+    want = []
+    for tno in range(1, inp['ntab'] + 1):
+        cols = TAB_COLS[:inp['ncol']] if tno % 2 else TAB_COLS[:inp['ncol']][::-1]
+        lines.append('TABLE NO.%3d' % tno)
+        hdr = ' ' + ''.join(c.ljust(12) for c in cols).rstrip()
+        lines.append(hdr)
+        rows = []
+        for r in range(inp['nrow']):
+            if inp['repeat'] and r > 0 and r % inp['repeat'] == 0:
+                lines.append(hdr)
+            toks = [TABTOKENS[(tno + r * 3 + j * 5 + inp['vs']) % len(TABTOKENS)] for j in range(len(cols))]
+            lines.append(''.join(t.rjust(12) for t in toks))
+            rows.append([float(t) for t in toks])
+        want.append((tno, cols, rows))
+    text = '\n'.join(lines) + '\n'
+    with tempfile.TemporaryDirectory() as d:
+        path = os.path.join(d, 'sdtab1')
+        with open(path, 'w') as fh:
+            fh.write(text)
+        try:
+            tf = NONMEMTableFile(path)
+            got = [(t.number, list(t.data_frame.columns), t.data_frame.values.tolist()) for t in tf]
+        except Exception as e:
+            return [(FID_TAB, C_T_ALL, f'raised {type(e).__name__}: {e} | file:\n{text[:1200]}')]
+    ok = len(got) == len(want)
+    if ok:
+        for (gn, gc, gr), (wn, wc, wr) in zip(got, want):
+            ok = ok and gn == wn and gc == wc and len(gr) == len(wr) and all(
+                _close(a, b, 0, 0) for x, y in zip(gr, wr) for a, b in zip(x, y))
+    if not ok:
+        return [(FID_TAB, C_T_ALL, f'got {got} | file:\n{text[:1200]}')]
+    return []
+
+
+def _tab_inputs(tier):
+    dom = []
+    for ntab in (1, 2, 3):
+        for ncol in (1, 3, 7):
+            for nrow in (1, 2, 5):
+                for repeat in (0, 1, 2):
+                    if repeat and repeat >= nrow:
+                        continue
+                    for vs in ((0, 1, 2) if tier == 'thorough' else (0,)):
+                        dom.append(dict(ntab=ntab, ncol=ncol, nrow=nrow, repeat=repeat, vs=vs))
+    return dom
+
+
+# ---- internals.math --------------------------------------------------------------------------------
+
+C_TRI = 'triangular_root(n(n+1)/2) == n'
+C_F2S = 'flattened_to_symmetric puts element k of the row-wise lower triangle at (i,j) and (j,i)'
+
+
+def _imath_check(inp):
+    from pharmpy.internals.math import flattened_to_symmetric, triangular_root
+
+    n = inp['n']
+    fails = []
+    try:
+        got = triangular_root(n * (n + 1) // 2)
+        if got != n:
+            fails.append((FID_TRI, C_TRI, f'n={n}: got {got}'))
+    except Exception as e:
+        fails.append((FID_TRI, C_TRI, f'n={n}: raised {type(e).__name__}: {e}'))
+    if n >= 1:
+        flat = [float((k * 7 + inp['vs'] * 3) % 11 - 4) + 0.25 * k for k in range(n * (n + 1) // 2)]
+        snap = list(flat)
+        try:
+            arg = __import__('numpy').array(flat) if inp['as_array'] else list(flat)
+            m = flattened_to_symmetric(arg)
+            ok = tuple(m.shape) == (n, n)
+            k = 0
+            for i in range(n):
+                for j in range(i + 1):
+                    ok = ok and m[i][j] == flat[k] and m[j][i] == flat[k]
+                    k += 1
+            if not ok or flat != snap:
+                fails.append((FID_F2S, C_F2S, f'x={flat}: got {m.tolist()}'))
+        except Exception as e:
+            fails.append((FID_F2S, C_F2S, f'x={flat}: raised {type(e).__name__}: {e}'))
+    return fails
+
+
+def _imath_inputs(tier):
+    nmax = 60 if tier == 'thorough' else 6
+    return [dict(n=n, vs=vs, as_array=a) for n in range(0, nmax + 1) for vs in (0, 1, 2) for a in (False, True)]
+
+
+# ---- JSON round trip --------------------------------------------------------------------------
+
+C_J_STRUCT = 'read_results(to_json(r)) restores every set field of a ModelfitResults with the same type, labels (index/column names, MultiIndex) and values to 1e-14 relative'
+C_J_EXACT = 'read_results(to_json(r)) restores floating point values exactly'
+C_J_UNSET = 'fields that were not set stay equal to their default after a JSON round trip'
+C_J_FILE = 'to_json(path) followed by read_results(path) gives the same object as the string form'
+C_J_LZMA = 'to_json(path, lzma=True) followed by read_results(path + ".xz") gives the same object as the string form'
+JVALS = [0.1 + 0.2, -1.0 / 3.0, 587.36644134661617, 1e-300, -2.5, 4.69307e-03, 1e22, 0.0]
+JVALS_SHORT = [0.25, -2.5, 587.125, 1e-3, 4.0, -1234.5, 1e10, 0.0]
+
+
+def _json_build(inp):
+    import pandas as pd
+    from pharmpy.workflows.results import ModelfitResults
+
+    vals = JVALS if inp['long'] else JVALS_SHORT
+    v = lambda k: vals[(k + inp['vs']) % len(vals)]  # noqa
+    names = ['POP_CL', 'IIV_CL', 'SIGMA'][:inp['npar']]
+    kw = {}
+    fields = inp['fields']
+    if 'scalars' in fields:
+        kw.update(ofv=inp['ofv'], minimization_successful=inp['flag'], termination_cause=inp['cause'],
+                  significant_digits=v(1), warnings=list(inp['warn']), function_evaluations=47, runtime_total=v(2),
+                  covstep_successful=inp['flag'])
+    if 'series' in fields:
+        kw.update(parameter_estimates=pd.Series({n: v(i) for i, n in enumerate(names)}, name='estimates'),
+                  standard_errors=pd.Series({n: v(i + 3) for i, n in enumerate(names)}, name='SE'),
+                  individual_ofv=pd.Series([v(4), v(5)], index=pd.Index([1, 12], name='ID'), name='iOFV'),
+                  evaluation=pd.Series([0.0, 1.0], index=[1, 2], name='evaluation'))
+    if 'frames' in fields:
+        kw.update(covariance_matrix=pd.DataFrame([[v(i + j) for j in range(len(names))] for i in range(len(names))],
+                                                 index=names, columns=names),
+                  individual_estimates=pd.DataFrame({'ETA_CL': [v(1), v(2)], 'ETA_VC': [v(3), v(4)]},
+                                                    index=pd.Index([1, 12], name='ID')))
+    if 'multi' in fields:
+        mi = pd.MultiIndex.from_tuples([(1, 0), (1, 5), (2, 0)], names=['step', 'iteration'])
+        kw.update(parameter_estimates_iterations=pd.DataFrame({n: [v(i), v(i + 1), v(i + 2)] for i, n in enumerate(names)},
+                                                              index=mi),
+                  ofv_iterations=pd.Series([v(0), v(1), v(2)], index=mi, name='OFV'))
+    if 'nested' in fields:
+        en = ['ETA_CL', 'ETA_VC']
+        kw.update(individual_estimates_covariance=pd.Series(
+            [pd.DataFrame([[v(1), v(2)], [v(2), v(3)]], index=en, columns=en),
+             pd.DataFrame([[v(4), v(5)], [v(5), v(6)]], index=en, columns=en)],
+            index=pd.Index([1, 12], name='ID'), dtype=object))
+    return ModelfitResults(**kw), kw
+
+
+def _json_cmp(a, b, exact):
+    """None when equal, else a description"""
+    import pandas as pd
+
+    rt = 0 if exact else 1e-14
+    if isinstance(a, pd.DataFrame):
+        if not isinstance(b, pd.DataFrame):
+            return f'type {type(b).__name__}'
+        if list(a.columns) != list(b.columns) or a.index.tolist() != b.index.tolist() or list(a.index.names) != list(b.index.names):
+            return f'labels {b.index.tolist()} {list(b.columns)} names {list(b.index.names)}'
+        for x, y in zip(a.values.ravel().tolist(), b.values.ravel().tolist()):
+            if not _close(x, y, rt, 0):
+                return f'value {y!r} for {x!r}'
+        return None
+    if isinstance(a, pd.Series):
+        if not isinstance(b, pd.Series):
+            return f'type {type(b).__name__}'
+        if a.index.tolist() != b.index.tolist() or list(a.index.names) != list(b.index.names) or a.name != b.name:
+            return f'labels {b.index.tolist()} names {list(b.index.names)} name {b.name}'
+        for x, y in zip(a.tolist(), b.tolist()):
+            if isinstance(x, pd.DataFrame):
+                d = _json_cmp(x, y, exact)
+                if d:
+                    return d
+            elif not _close(x, y, rt, 0):
+                return f'value {y!r} for {x!r}'
+        return None
+    if isinstance(a, float):
+        if not isinstance(b, (float, int)) or isinstance(b, bool) or not _close(a, b, rt, 0):
+            return f'value {b!r} for {a!r}'
+        return None
+    if type(a) is not type(b) or a != b:
+        return f'value {b!r} for {a!r}'
+    return None
+
+
+def _json_check(inp):
+    import dataclasses
+    import tempfile
+    from pathlib import Path
+
+    from pharmpy.workflows.results import ModelfitResults, read_results
+
+    r, kw = _json_build(inp)
+    tag = f"fields {sorted(kw)} spec {json.dumps(_js(inp))}"
+    try:
+        s = r.to_json()
+        r2 = read_results(s)
+    except Exception as e:
+        return [(FID_JSON, C_J_STRUCT, f'{tag}: raised {type(e).__name__}: {e}')]
+    fails = []
+    if type(r2) is not ModelfitResults:
+        return [(FID_JSON, C_J_STRUCT, f'{tag}: got a {type(r2).__name__}')]
+    for f in dataclasses.fields(r):
+        a, b = getattr(r, f.name), getattr(r2, f.name)
+        if f.name in kw:
+            d = _json_cmp(a, b, False)
+            if d:
+                if all(c != C_J_STRUCT for _, c, _ in fails):
+                    fails.append((FID_JSON, C_J_STRUCT, f'{tag}: field {f.name}: {d}'))
+            else:
+                d = _json_cmp(a, b, True)
+                if d and all(c != C_J_EXACT for _, c, _ in fails):
+                    fails.append((FID_JSON, C_J_EXACT, f'{tag}: field {f.name}: {d}'))
+        else:
+            same = (a is None and b is None) or (type(a) is type(b) and a == b)
+            if not same and all(c != C_J_UNSET for _, c, _ in fails):
+                fails.append((FID_JSON, C_J_UNSET, f'field {f.name} was left at its default {a!r} and came back as {b!r}'))
+    if inp.get('file'):
+        for clause, use_lzma in ((C_J_FILE, False), (C_J_LZMA, True)):
+            try:
+                with tempfile.TemporaryDirectory() as d:
+                    p = Path(d) / 'results.json'
+                    r.to_json(p, lzma=use_lzma)
+                    r3 = read_results(Path(d) / ('results.json.xz' if use_lzma else 'results.json'))
+                for f in dataclasses.fields(r):
+                    if f.name in kw and _json_cmp(getattr(r2, f.name), getattr(r3, f.name), True):
+                        if all(c != clause for _, c, _ in fails):
+                            fails.append((FID_JSON, clause, f'{tag}: field {f.name} differs between string and file form'))
+            except Exception as e:
+                fails.append((FID_JSON, clause, f'{tag}: raised {type(e).__name__}: {e}'))
+    return fails
+
+
+def _json_inputs(tier):
+    dom = []
+    groups = ['scalars', 'series', 'frames', 'multi', 'nested']
+    k = 0
+    for n in range(0, len(groups) + 1):
+        for fields in itertools.combinations(groups, n):
+            for long in (False, True):
+                for vs in range(8 if tier == 'thorough' else 3):
+                    for npar in (1, 3):
+                        ofv = [NAN, -10.5, JVALS[2]][k % 3]
+                        dom.append(dict(fields=list(fields), long=long, vs=vs, npar=npar, ofv=ofv, flag=[True, False, None][k % 3],
+                                        cause=[None, 'rounding_errors'][k % 2], warn=[[], ['final_zero_gradient']][k % 2],
+                                        file=(k % 5 == 0)))
+                        k += 1
+    return dom
+
+
+# ---- end to end: parse_modelfit_results on the pheno example with rendered output files -----------
+
+C_E_EXC = 'read_modelfit_results raises no exception on a complete set of NONMEM output files (ext, lst and any of cov/cor/coi)'
+C_E_ALL = 'read_modelfit_results on pheno.mod with rendered ext/cov/cor/coi: estimates, standard errors and OFV are those of the designated ext rows under the model parameter names, FIXed parameters left out'
+C_E_REL = 'covariance, correlation, precision matrix and standard errors reported together satisfy cor = D^-1 cov D^-1 (unit diagonal), precision = cov^-1, se = sqrt(diag cov) to printed precision, labelled by model parameter names'
+PHENO_MAP = {'THETA1': 'POP_CL', 'THETA2': 'POP_VC', 'THETA3': 'COVAPGR', 'OMEGA(1,1)': 'IIV_CL', 'OMEGA(2,2)': 'IIV_VC',
+             'SIGMA(1,1)': 'SIGMA'}
+EXAMPLE_DIR = '/repo/src/pharmpy/internals/example_models'
+
+
+def _e2e_check(inp):
+    import shutil
+    import tempfile
+
+    from pharmpy.tools import read_modelfit_results
+
+    file_order = ['THETA1', 'THETA2', 'THETA3', 'SIGMA(1,1)', 'OMEGA(1,1)', 'OMEGA(2,1)', 'OMEGA(2,2)']
+    fixset = ['OMEGA(2,1)'] + {0: [], 1: ['THETA3'], 2: ['OMEGA(2,2)'], 3: ['SIGMA(1,1)']}[inp['fixed']]
+    live = [x for x in file_order if x not in fixset]
+    n = len(live)
+    vs = inp['vs']
+    cov = _pd_matrix(n, vs)
+    se = [math.sqrt(cov[i][i]) for i in range(n)]
+    setok = {lab: _etok(se[i]) for i, lab in enumerate(live)}
+    est = {lab: ('0.00000E+00' if lab == 'OMEGA(2,1)' else _tok(vs * 3 + j * 2).lstrip('-')) for j, lab in enumerate(file_order)}
+    obj0, objf = OBJTOKENS[vs % len(OBJTOKENS)], OBJTOKENS[(vs + 2) % len(OBJTOKENS)]
+    rows = [(0, {lab: _tok(vs + j).lstrip('-') if lab != 'OMEGA(2,1)' else '0.00000E+00' for j, lab in enumerate(file_order)}, obj0),
+            (9, est, objf), (ITER_FINAL, est, objf),
+            (ITER_SE, {lab: setok.get(lab, '1.00000E+10') for lab in file_order}, '0.0000000000000000'),
+            (ITER_SDC, {lab: ('0.00000E+00' if lab.startswith('THETA') else _etok(math.sqrt(float(est[lab])))) for lab in file_order}, '0.0000000000000000'),
+            (ITER_SESDC, {lab: ('0.00000E+00' if lab.startswith('THETA') else setok.get(lab, '1.00000E+10')) for lab in file_order}, '0.0000000000000000'),
+            (ITER_FIX, {lab: ('1.00000E+00' if lab in fixset else '0.00000E+00') for lab in file_order}, '0.0000000000000000')]
+    ext = _render_ext([dict(number=1, method=METHODS[0], file_order=file_order, rows=rows, problem=1, sub=0)])
+    cor = [[se[i] if i == j else cov[i][j] / (se[i] * se[j]) for j in range(n)] for i in range(n)]
+    coi = _inv(cov)
+    fails = []
+    with tempfile.TemporaryDirectory() as d:
+        for f in ('pheno.mod', 'pheno.lst', 'pheno.dta', 'pheno.datainfo'):
+            if os.path.exists(os.path.join(EXAMPLE_DIR, f)):
+                shutil.copy(os.path.join(EXAMPLE_DIR, f), os.path.join(d, f))
+        with open(os.path.join(d, 'pheno.ext'), 'w') as fh:
+            fh.write(ext)
+        for suffix, mat in (('cov', cov), ('cor', cor), ('coi', coi)):
+            if suffix in inp['files']:
+                toks = {(a, b): _etok(mat[i][j]) for i, a in enumerate(live) for j, b in enumerate(live)}
+                with open(os.path.join(d, 'pheno.' + suffix), 'w') as fh:
+                    fh.write(_render_matrix(file_order, live, toks))
+        try:
+            res = read_modelfit_results(os.path.join(d, 'pheno.mod'))
+        except Exception as e:
+            return [(FID_PARSE, C_E_EXC, f'{json.dumps(_js(inp))}: raised {type(e).__name__}: {e} | ext:\n{ext}')]
+    names = [PHENO_MAP[x] for x in ['THETA1', 'THETA2', 'THETA3', 'OMEGA(1,1)', 'OMEGA(2,2)', 'SIGMA(1,1)'] if x in live]
+    want_pe = {PHENO_MAP[x]: float(est[x]) for x in live}
+    want_se = {PHENO_MAP[x]: float(setok[x]) for x in live}
+    pe, ses = res.parameter_estimates, res.standard_errors
+    ok = list(pe.index) == names and all(_close(pe[k], v, 0, 0) for k, v in want_pe.items())
+    ok = ok and _close(res.ofv, float(objf), 0, 0)
+    ok = ok and ses is not None and list(ses.index) == names and all(_close(ses[k], v, 0, 0) for k, v in want_se.items())
+    if not ok:
+        fails.append((FID_PARSE, C_E_ALL, f'{json.dumps(_js(inp))}: estimates {pe.to_dict()} se {None if ses is None else ses.to_dict()} '
+                                          f'ofv {res.ofv}; written {want_pe} / {want_se} / {objf} | ext:\n{ext}'))
+    if inp['files']:
+        idx = {PHENO_MAP[x]: i for i, x in enumerate(live)}
+        rc, rr, rp = res.covariance_matrix, res.correlation_matrix, res.precision_matrix
+        ok = all(m is not None and list(m.index) == names and list(m.columns) == names for m in (rc, rr, rp))
+        if ok:
+            for a in names:
+                for b in names:
+                    i, j = idx[a], idx[b]
+                    ok = ok and _close(rc.loc[a, b], cov[i][j], 5e-5, 0)
+                    ok = ok and _close(rr.loc[a, b], 1.0 if a == b else cov[i][j] / (se[i] * se[j]), 0, 5e-5)
+                    ok = ok and _close(rp.loc[a, b] * se[i] * se[j], coi[i][j] * se[i] * se[j], 0, 1e-3)
+                ok = ok and _close(ses[a], math.sqrt(float(rc.loc[a, a])), 5e-5, 0)
+        if not ok:
+            fails.append((FID_PARSE, C_E_REL, f'{json.dumps(_js(inp))}: cov {None if rc is None else rc.to_dict()} cor '
+                                              f'{None if rr is None else rr.to_dict()} precision {None if rp is None else rp.to_dict()} '
+                                              f'se {None if ses is None else ses.to_dict()}; rendered cov {cov} for {live}'))
+    return fails
+
+
+def _e2e_inputs(tier):
+    dom = []
+    for files in ([], ['cov'], ['cor'], ['coi'], ['cov', 'cor'], ['cov', 'coi'], ['cor', 'coi'], ['cov', 'cor', 'coi']):
+        for fixed in range(4):
+            for vs in ((0, 1, 2) if tier == 'thorough' else (0,)):
+                dom.append(dict(files=files, fixed=fixed, vs=vs))
+    return dom
+
+
+NM_KINDS = {
+    'ext': (_ext_check, _ext_inputs, 16),
+    'phi': (_phi_check, _phi_inputs, 2),
+    'covm': (_cov_check, _cov_inputs, 2),
+    'tab': (_tab_check, _tab_inputs, 1),
+    'imath': (_imath_check, _imath_inputs, 1),
+    'json': (_json_check, _json_inputs, 4),
+    'e2e': (_e2e_check, _e2e_inputs, 8),
+}
+
+
+def _nm_worker(task):
+    kind, items = task
+    fn = NM_KINDS[kind][0]
+    col = _Collector()
+    for n, (i, inp) in enumerate(items):
+        col.cases += 1
+        col.nontrivial += 1
+        try:
+            fails = fn(inp)
+        except Exception as e:
+            fails = [('contracts/b_rank.py', 'checker error', f'{kind}: {type(e).__name__}: {e} on {inp}')]
+        if not col.samples and n == 1:
+            col.samples.append(kind + ':' + json.dumps(_js(inp))[:160])
+        for fid, clause, detail in fails:
+            col.fail((0, i), fid, clause, detail, kind, inp, 'bounded_nonmem_tables_replay')
+    return col.export()
+
+
+def bounded_nonmem_tables(tier):
+    import pharmpy.modeling  # noqa: F401  (import before forking)
+    import pharmpy.tools  # noqa: F401
+
+    col = _Collector()
+    tasks = []
+    for kind, (fn, gen, nch) in NM_KINDS.items():
+        inputs = list(enumerate(gen(tier)))
+        for c in range(nch):
+            part = inputs[c::nch]
+            if part:
+                tasks.append((kind, part))
+    tasks.sort(key=lambda t: 0 if t[0] in ('e2e', 'ext') else 1)
+    for part in _pool_map(_nm_worker, tasks):
+        col.merge(part)
+    th = tier == 'thorough'
+    bound = (f'ext files: <= 3 thetas x (1 omega | 2x2 omega block) x sigma, 4 FIX patterns, 5 iteration lists, all 32 '
+             f'combinations of the special rows (-1000000000 / -1000000001,-2 / -3 / -4,-5 / -6,-7,-8), 7 method titles, '
+             f'{3 if th else 1} value set(s), plus files with {3 if th else 2} estimation steps; phi: <= 3 etas x <= 3 individuals x '
+             f'all-zero individual x ETA|PHI x 1-2 tables; cov/cor/coi: same parameter configurations x {6 if th else 3} positive '
+             f'definite matrices; $TABLE: <= 3 tables x <= 7 columns x <= 5 rows x repeated headers; triangular numbers n <= '
+             f'{60 if th else 6}; JSON: all subsets of 5 field groups x short/17-digit floats; pheno end-to-end: 8 cov/cor/coi file '
+             f'subsets x 4 FIX patterns')
+    return col.result(bound)
+
+
+def bounded_nonmem_tables_replay(rp):
+    case = rp['case']
+    inp = _unjs(case['input'])
+    fn = NM_KINDS[case['kind']][0]
+    for _, c, d in fn(inp):
+        if c == case['clause']:
+            return (False, d)
+    return (True, 'ok')
